@@ -229,10 +229,10 @@ structure SimSt where
   deliveries : Nat := 0
   fails : Nat := 0
   maxProcessed : Nat := 0
-  complete : Nat := 0         -- all-connected runs with at least two entitled endpoints
+  complete : Nat := 0         -- runs that meet the hypotheses of the completeness sentence
   beyondScope : Nat := 0      -- topologies with more than two endpoints in some zone (outside the property's quantifier)
   beyondScopeDups : Nat := 0  -- runs on those in which some endpoint processed the event twice (expected; informational)
-  incomplete : Nat := 0       -- all-connected runs in which an entitled endpoint did not process the event
+  incomplete : Nat := 0       -- … in which an entitled endpoint did not process the event
   nontrivial : Nat := 0
 
 /-- run to quiescence with the delivery order given by `mode` (0 FIFO, 1 LIFO, else seeded random) -/
@@ -246,7 +246,7 @@ def runAll (T : Topo) (oz : Zone) (mode : Nat) : Nat → Lcg → Net → Net × 
       let (n', c) := runAll T oz mode k g (deliver T oz n i)
       (n', c + 1)
 
-def simTopo (t : TopoTxt) (line : Nat) (seed : Nat) (st : SimSt) : IO SimSt := do
+def simTopo (t : TopoTxt) (line : Nat) (seed : Nat) (npat : Nat) (st : SimSt) : IO SimSt := do
   let nep := t.zoneOf.size
   let nz := t.parents.size
   let allEps := List.range nep
@@ -254,7 +254,7 @@ def simTopo (t : TopoTxt) (line : Nat) (seed : Nat) (st : SimSt) : IO SimSt := d
   let mut st := { st with topos := st.topos + 1, beyondScope := st.beyondScope + (if inScope then 0 else 1) }
   let mut g : Lcg := ⟨(seed * 1000003 + line).toUInt64⟩
   -- connectivity patterns: everything connected, then seeded symmetric random ones
-  for pat in List.range 6 do
+  for pat in List.range npat do
     let mut bits : Array Bool := Array.replicate (nep * nep) true
     if pat > 0 then
       for a in allEps do
@@ -289,20 +289,20 @@ def simTopo (t : TopoTxt) (line : Nat) (seed : Nat) (st : SimSt) : IO SimSt := d
             else
               st := { st with beyondScopeDups := st.beyondScopeDups + 1 }
           | none => pure ()
-          if pat == 0 && inScope then
-            let want := allEps.filter (fun e => netEntitledB T (T.zoneOf orig) oz (T.zoneOf e) && netEntitledB T (T.zoneOf orig) oz (T.zoneOf orig))
-            st := { st with complete := st.complete + (if want.length > 1 then 1 else 0) }
-            if !want.all (fun e => fin.processed.contains e) then
-              st := { st with incomplete := st.incomplete + 1 }
-              IO.println s!"SIMFAIL line={line} clause=incomplete_when_connected pattern=0 orig={orig} objzone={oz} mode={mode} processed={showList fin.processed}"
+          -- completeness under the property's connectivity hypothesis (always met by pattern 0)
+          if inScope && mastersConnectedB T allEps (List.range nz) && netEntitledB T (T.zoneOf orig) oz (T.zoneOf orig) then
+            st := { st with complete := st.complete + 1 }
+            if !specComplete T allEps (List.range nz) orig oz fin then
+              st := { st with incomplete := st.incomplete + 1, fails := st.fails + 1 }
+              IO.println s!"SIMFAIL line={line} clause=incomplete_when_connected pattern={pat} orig={orig} objzone={oz} mode={mode} processed={showList fin.processed}"
   return st
 
-def handleSim (seed : Nat) (st : SimSt) (n : Nat) (line : String) : IO SimSt := do
+def handleSim (seed : Nat) (npat : Nat) (st : SimSt) (n : Nat) (line : String) : IO SimSt := do
   match words line with
   | "T" :: rest =>
     let (pre, post) := splitBar rest
     match parseTopo pre post with
-    | some t => simTopo t n seed st
+    | some t => simTopo t n seed npat st
     | none => IO.println s!"BADLINE line={n}"; return st
   | _ => return st
 
@@ -311,7 +311,8 @@ def main (args : List String) : IO Unit := do
   match args with
   | "sim" :: rest =>
     let seed := (rest.head?.bind parseNat?).getD 1
-    let st ← foldLines stdin (handleSim seed) ({} : SimSt)
+    let npat := ((rest.drop 1).head?.bind parseNat?).getD 6
+    let st ← foldLines stdin (handleSim seed npat) ({} : SimSt)
     IO.println s!"SIMSTATS topologies={st.topos} runs={st.runs} deliveries={st.deliveries} fails={st.fails} complete_checked={st.complete} incomplete={st.incomplete} beyond_scope_topologies={st.beyondScope} beyond_scope_duplicates={st.beyondScopeDups} max_processed={st.maxProcessed} nontrivial={st.nontrivial}"
   | _ =>
     let d ← foldLines stdin handle ({} : DSt)
